@@ -746,6 +746,87 @@ fn delay_hook(_p: Point) {
 }
 
 /// C08, free running stress with seeded spin delays at the yield points
+/// many threads do nothing but push into a fresh vector, as fast as they can, across a dozen bucket boundaries (the hooks
+/// do nothing here): preemption inside sections that have no yield point - bucket allocation above all - comes from the
+/// machine. Afterwards every returned index must hold exactly the item that was pushed there.
+fn hammer(opts: &Opts, idx: u64, rng: &mut Rng, rep: &mut Report) {
+    let nthreads = *rng.pick(&[6usize, 8, 12, 16, 24]);
+    let per_thread = rng.range(300, 2500) as u32;
+    let ncols = rng.range(1, 2);
+    let cap = *rng.pick(&[0u32, 1, 1, 32]);
+    let total = nthreads as u32 * per_thread;
+    let reg = Registry::new((total as usize + 16).max(1 << 10));
+    reg.live_handles.store(1, Ordering::Relaxed);
+    let vec: BoxcarVec<Tracked> = BoxcarVec::with_capacity(cap, ncols as u32);
+    let start = AtomicBool::new(false);
+    let results: Vec<Vec<(u32, u32)>> = std::thread::scope(|scope| {
+        let handles: Vec<_> = (0..nthreads)
+            .map(|t| {
+                let (vec, reg, start) = (&vec, &reg, &start);
+                scope.spawn(move || {
+                    let mut out = Vec::with_capacity(per_thread as usize);
+                    while !start.load(Ordering::Relaxed) {
+                        std::hint::spin_loop();
+                    }
+                    for k in 0..per_thread {
+                        let id = t as u32 * per_thread + k;
+                        let index = vec.push(Tracked::new(id, reg), |v, cols| fill(v.id, cols));
+                        out.push((id, index));
+                    }
+                    out
+                })
+            })
+            .collect();
+        start.store(true, Ordering::Relaxed);
+        handles.into_iter().map(|h| h.join().unwrap()).collect()
+    });
+    rep.count("histories");
+    rep.count("stress.hammer-histories");
+    rep.add("ops", total as u64);
+    rep.max("stress.max-threads", nthreads as u64);
+    rep.distinct(mix(&[opts.seed, opts.shard, idx, total as u64]));
+    let mut problem: Option<(&str, String)> = None;
+    let mut seen = vec![false; total as usize];
+    for &(id, index) in results.iter().flatten() {
+        if index >= total || std::mem::replace(&mut seen[index as usize], true) {
+            problem = Some(("index-handed-out-twice", format!("index {index} (id {id}) of {total} pushes is out of range or was handed out twice")));
+            break;
+        }
+        match vec.get(index) {
+            None => {
+                problem = Some(("completed-push-not-readable", format!("get({index}) is None although the push of id {id} returned that index")));
+                break;
+            }
+            Some(item) => match verify_item(&item, ncols) {
+                Ok(got) if got == id => (),
+                Ok(got) => {
+                    problem = Some(("push-index-holds-other-item", format!("index {index} holds id {got}, the push of id {id} returned it")));
+                    break;
+                }
+                Err(e) => {
+                    problem = Some(("item-incomplete", format!("index {index}: {e}")));
+                    break;
+                }
+            },
+        }
+    }
+    if problem.is_none() && vec.count() != total {
+        problem = Some(("count-differs-from-reservations", format!("count {} after {total} pushes", vec.count())));
+    }
+    if let Some((kind, msg)) = problem {
+        rep.violation(
+            "C08",
+            kind,
+            format!("hammer cols={ncols}"),
+            jobj! {"problem" => msg, "case_id" => format!("{}:{}:{}", opts.seed, opts.shard, idx), "threads" => nthreads, "capacity" => cap,
+                   "mode" => "free-running pushes only", "pushes_per_thread" => per_thread},
+        );
+    }
+    reg.live_handles.store(0, Ordering::Relaxed);
+    drop(vec);
+    // (drop accounting of this workload belongs to C11 and is exercised there)
+}
+
 pub fn run_stress(opts: &Opts, rep: &mut Report, small: bool) {
     set_hook(Some(delay_hook));
     let pool = (!small).then(|| rayon::ThreadPoolBuilder::new().num_threads(4).build().unwrap());
@@ -759,6 +840,10 @@ pub fn run_stress(opts: &Opts, rep: &mut Report, small: bool) {
             break;
         }
         let mut rng = Rng::new(mix(&[opts.seed, opts.shard, idx, 88]));
+        if !small && idx % 3 == 2 {
+            hammer(opts, idx, &mut rng, rep);
+            continue;
+        }
         let nthreads = if small { rng.range(2, 3) } else { rng.range(2, 16) };
         let ncols = rng.range(1, 3);
         let cap = *rng.pick(&[0u32, 1, 32, 1024]);
